@@ -282,6 +282,54 @@ func (ex *Exec) assumeAfter(fr *Frame, in *ssa.Call, pc Term, st State) {
 	}
 }
 
+// ghostAfter applies `ghostset after <callee> name Sort: expr` updates.
+func (ex *Exec) ghostAfter(fr *Frame, in *ssa.Call, pc Term, st State) State {
+	specs := ex.siteSpecs("ghost-after")
+	if len(specs) == 0 {
+		return st
+	}
+	names := calleeNames(in.Common())
+	for _, s := range specs {
+		if !contains(names, s.Target) {
+			continue
+		}
+		s.Hits++
+		se := ex.newSpecEnv(fr, pc, st, ex.rootEntry())
+		if t, ok := fr.vals[in]; ok {
+			if t.Tuple != nil {
+				for i, x := range t.Tuple {
+					se.vars[fmt.Sprintf("ret%d", i)] = SVal{T: x, Ty: in.Type().(*types.Tuple).At(i).Type()}
+				}
+			} else {
+				se.vars["ret"] = SVal{T: t, Ty: in.Type()}
+				se.vars["ret0"] = se.vars["ret"]
+			}
+		}
+		for i, a := range in.Common().Args {
+			se.vars[fmt.Sprintf("arg%d", i)] = SVal{T: ex.val(fr, a), Ty: a.Type()}
+		}
+		v := se.value(se.eval(s.C.E))
+		if se.err != nil || v.Sort != Sort(s.Why) {
+			ex.vc.note(fmt.Sprintf("ghostset %s not applied: %v (sort %s)", s.C.Label, se.err, v.Sort))
+			ex.outsideSubset("ghost update " + s.C.Label + " cannot be evaluated")
+			continue
+		}
+		st = st.with("G|"+s.C.Label, ex.vc.def("ghost_"+s.C.Label, v))
+	}
+	return st
+}
+
+// ghostInit gives every declared ghost variable its initial value.
+func (ex *Exec) ghostInit(st State) State {
+	for _, s := range ex.siteSpecs("ghost-after") {
+		k := "G|" + s.C.Label
+		so := Sort(s.Why)
+		ex.keySort[k] = so
+		st = st.with(k, zeroOfSort(so))
+	}
+	return st
+}
+
 func (ex *Exec) useUFun(u *UFun) {
 	if ex.ufunUsed[u.Name] {
 		return
